@@ -3,8 +3,9 @@
 (* edge, with the required transport output of the edge), and the concretisation table: the   *)
 (* addresses of viewers / simulators in each layout together with the SOCKS5 UDP header bytes *)
 (* (SocksWrap of the empty payload) the harness must use to build viewer datagrams and must   *)
-(* find in front of every datagram handed to a viewer.                                        *)
-EXTENDS UdpProxy, Json
+(* find in front of every datagram handed to a viewer.  Extends UdpProxy_MC so that the same  *)
+(* run also checks the framing law (ASSUME) next to the invariants / properties of the cfg.   *)
+EXTENDS UdpProxy_MC, Json
 
 \* layout 1: everything on one machine (direction can only be told by the learned far
 \* addresses); layout 2: viewers, simulators and strangers on different IPs.
